@@ -434,6 +434,7 @@ func (s *session) newManifest(rec *sessionRecord, v *version) (err error) {
 	s.fillRecord(rec, true)
 	v.fillRecord(rec)
 
+	metaTried := false
 	defer func() {
 		if err == nil {
 			s.recordCommited(rec)
@@ -455,13 +456,16 @@ func (s *session) newManifest(rec *sessionRecord, v *version) (err error) {
 			s.manifest = jw
 		} else {
 			writer.Close()
-			if cur, gerr := s.stor.GetMeta(); gerr == nil && cur == fd {
-				// SetMeta reported an error but the storage names the new
-				// manifest as current: removing it would leave the DB
-				// without an entry point. Keep it (it is complete), and
-				// have the next commit write another one.
-				atomic.StoreUint32(&s.manifestFailed, 1)
-				return
+			if metaTried {
+				if cur, gerr := s.stor.GetMeta(); gerr != nil || cur == fd {
+					// SetMeta reported an error but the storage names the
+					// new manifest as current (or cannot tell): removing it
+					// could leave the DB without an entry point. Keep it
+					// (it is complete), and have the next commit write
+					// another one.
+					atomic.StoreUint32(&s.manifestFailed, 1)
+					return
+				}
 			}
 			if rerr := s.stor.Remove(fd); err != nil {
 				err = fmt.Errorf("newManifest error: %v, cleanup error (%v)", err, rerr)
@@ -488,6 +492,7 @@ func (s *session) newManifest(rec *sessionRecord, v *version) (err error) {
 			return
 		}
 	}
+	metaTried = true
 	err = s.stor.SetMeta(fd)
 	return
 }
